@@ -225,6 +225,7 @@ func RunAll(sh *Shared, fns []*ssa.Function, opt Options, nworkers int, progress
 					inputSet: map[int]bool{}, inputObjs: map[string]*Obj{}, stats: &st, funcsEntered: funcs,
 					cuts: map[string]int{}, reached: map[string]bool{}, tables: map[*Cell]string{}}
 				pt0 := time.Now()
+				w.S.SetTimeout(w.S.TimeoutMs) // harness directives may lower it again
 				if opt.PathLimit > 0 {
 					ex.deadline = pt0.Add(opt.PathLimit)
 				}
